@@ -197,6 +197,56 @@ func TestC19(t *testing.T) {
 			checkHeavy(fmt.Sprintf("heavy/%d/%d", w, i), batch)
 		}
 	})
+	// Outside the canonical domain (probe with a weaker oracle): an on-chain global index with the
+	// mainnet bit AND left-over rollup bits decodes to (true, r != 0, l). Nothing says which value is
+	// "right", but every place that re-encodes the certificate's struct (wire message, prover
+	// request, both commitment encodings) must produce the SAME value, otherwise the Agglayer
+	// verifies a commitment over something else than what it received.
+	nNC := r.N(2000, 100000)
+	parallel(workers, workers, func(w int) {
+		g := rng(r, "noncanonical", w)
+		for i := 0; i < nNC/workers; i++ {
+			caseID := fmt.Sprintf("noncanonical/%d/%d", w, i)
+			if !r.Only(caseID) {
+				continue
+			}
+			ro, le := 1+randU32(g)%(1<<31), randU32(g)
+			raw := new(big.Int).Lsh(big.NewInt(1), 64)
+			raw.Or(raw, new(big.Int).Lsh(new(big.Int).SetUint64(uint64(ro)), 32))
+			raw.Or(raw, new(big.Int).SetUint64(uint64(le)))
+			sc := map[string]any{"on_chain_global_index": fmt.Sprintf("0x%x", raw)}
+			guard(r, caseID, sc, func() {
+				claim := bridgesync.Claim{GlobalIndex: raw, OriginNetwork: 3, Amount: big.NewInt(int64(i) + 1), DestinationNetwork: 7}
+				ibe, err := bf.ConvertClaimToImportedBridgeExit(claim)
+				if err != nil {
+					return // refusing such an index is fine
+				}
+				vals := map[string]*big.Int{}
+				leb := ibe.GlobalIndexToLittleEndianBytes()
+				be := make([]byte, len(leb))
+				for k := range leb {
+					be[len(leb)-1-k] = leb[k]
+				}
+				vals["commitment-little-endian"] = new(big.Int).SetBytes(be)
+				for name, gots := range c19Consumers(r, caseID, sc, []bridgesync.Claim{claim}, []*agglayertypes.ImportedBridgeExit{ibe}) {
+					if name != "optimistic" && len(gots) == 1 {
+						vals[name] = gots[0]
+					}
+				}
+				var first *big.Int
+				for _, v := range vals {
+					if first == nil {
+						first = v
+					} else if first.Cmp(v) != 0 {
+						sc["values"] = fmt.Sprintf("%x", vals)
+						r.Violation("C19:noncanonical:encoders-disagree", caseID, fmt.Sprintf("for the decoded index %s the re-encoders disagree: %x", ibe.GlobalIndex.String(), vals), sc)
+						return
+					}
+				}
+				r.Eval(fmt.Sprintf("noncanonical/ro=%d/le=%d", cls(ro), cls(le)))
+			})
+		}
+	})
 	g := rng(r, "sample", 0)
 	for i := 0; i < 3; i++ {
 		m, ro, le := g.Intn(2) == 0, randU32(g), randU32(g)
